@@ -311,6 +311,23 @@ def feature_parity(ctx: Ctx, py: PyProgram, rs: RustProgram, rows: dict, ok_base
         if rf != pyflags[op]:
             ctx.violation("C06.7/flag-signature", key_of(rs_file(), f"execute_with opcode 0x{op:02X} {r.name}", f"flags {sorted(rf)} vs {sorted(pyflags[op])}"),
                           f"opcode 0x{op:02X} ({r.name} {' '.join(o.ctor for o in r.ops)}): the Rust arm may write flags {sorted(rf) or 'none'}, the Python IL writes {sorted(pyflags[op]) or 'none'}", f"{isa.OPTABLE}:{r.ln}")
+    # (b3) counted instructions: the Python IL loops on I  <=>  the Rust arm reads I
+    from ..pyfacts import Term as _Term
+    nl = 0
+    pyloop: dict[int, bool] = collections.defaultdict(bool)
+    for c in lifted:
+        if c.status == "ok" and not c.lift_exc:
+            pyloop[c.opcode] |= any(isinstance(st, _Term) and st.ctor == "if_expr" and "reg(2, 'I')" in repr(st.args[0]) for st in c.il_terms)
+    for op in sorted(seen_ops):
+        r = rows[op]
+        if r.cls in ("PRE", "UnknownInstruction"):
+            continue
+        nl += 1
+        reads_i = "I" in re_.for_opcode(op).reads
+        if reads_i != pyloop[op]:
+            ctx.violation("C06.8/counted-parity", key_of(rs_file(), f"execute_with opcode 0x{op:02X} {r.name}", "loop on I"),
+                          f"opcode 0x{op:02X} ({r.name}): the Python lift {'loops on I' if pyloop[op] else 'does not loop on I'}, the Rust arm {'reads I' if reads_i else 'never reads I (single pass, I unchanged)'}", f"{isa.OPTABLE}:{r.ln}")
+    ctx.instance("C06.8/counted-parity", "opcodes: Python IL loops on I <=> Rust arm reads I", nl, 230)
     ctx.instance("C06.7/flag-signature", "opcodes: flags the Rust arm may write (pruned may-effect analysis, save/restore pairs excluded) == flags written by the Python IL", nf, 230)
     # (c) control-transfer target formulas at a page edge (shared with C05)
     from .c05 import EDGE_ADDR, rust_formulas
